@@ -224,6 +224,39 @@ theorem merge_constant_projection_under_outer_join_unsound :
         (leftJoin (fun _ _ => some true) [[.int 1]] (project (fun _ => [.int 7]) []) 1) = [[.null]] ∧
     project (fun _ => [Val.int 7]) (leftJoin (fun _ _ => some true) [[.int 1]] [] 1) = [[.int 7]] := by decide
 
+-- ------------------------------------------------------------------------------------------ merge_subqueries: source renaming and the scope cache
+/-- with a FRESH cache (it lists every live column node — what `Scope.clear_cache()` after each in-place rewrite
+    guarantees) renaming a conflicting inner source renames ALL of its columns, for every column list -/
+theorem rename_with_fresh_cache_renames_all (cache : List Nat) (old new : String) (live : List ColRef)
+    (h : ∀ c ∈ live, c.id ∈ cache) : renameVia cache old new live = renameAll old new live := by
+  unfold renameVia renameAll
+  apply List.map_congr_left
+  intro c hc
+  have hm : c.id ∈ cache := h c hc
+  simp [hm]
+
+/-- … after which no live column still refers to the old name, so none can be captured by an outer source that
+    carries it -/
+theorem rename_all_leaves_no_old (old new : String) (hne : new ≠ old) (live : List ColRef) :
+    ∀ c ∈ renameAll old new live, c.table ≠ old := by
+  intro c hc
+  simp only [renameAll, List.mem_map] at hc
+  obtain ⟨c0, _, rfl⟩ := hc
+  by_cases h0 : c0.table = old
+  · simp [h0, hne]
+  · simp [h0]
+
+/-- NECESSITY of the full cache invalidation (seeded regression C03-5: `clear_column_cache()` instead of
+    `clear_cache()` in merge_derived_tables): the cache still lists node 7, which `_merge_expressions` replaced by
+    node 8; the inner source x is renamed to x_2 but the live column keeps `x` and binds to the OUTER x -/
+theorem rename_with_stale_cache_witness :
+    renameVia [7] "x" "x_2" [⟨8, "x", "a"⟩] = [⟨8, "x", "a"⟩] ∧
+    renameAll "x" "x_2" [⟨8, "x", "a"⟩] = [⟨8, "x_2", "a"⟩] := by decide
+
+/-- TABLE FACT (re-extracted by ast on every run): both in-place merges end with the FULL `clear_cache()` -/
+theorem merge_cache_clears_present :
+    mergeCacheClears = [("merge_ctes", "clear_cache"), ("merge_derived_tables", "clear_cache")] := by decide
+
 -- ------------------------------------------------------------------------------------------ unnest_subqueries
 /-- `decorrelate` of a correlated scalar subquery whose projection contains COUNT: the LEFT JOIN + COALESCE form
     returns the subquery's value for EVERY outer row and every table, provided (1) the fallback is the projection
